@@ -68,6 +68,59 @@ CLAIMED = {
         'note': 'Trusted: strftime digit directives emit ASCII digits. Regex/format literals are evaluated by the stdlib on a finite alphabet-covering set.',
         'technique': SA + 'constant evaluation of writer format and reader regex literals over the timestamp alphabet + CFG sibling comparison of the two branches',
     },
+    'C04': {
+        'level': 'Decides the structural necessary conditions of exactly-once, in-order dispatch with no lost wake-up and no overlapping steps: the '
+                 'queue end every operation touches on every path, one wake-up token per wait and at most one step per token, a token or a '
+                 '`tokens < items` re-test after every add, and (thread-root reachability over the resolved call graph) that only the object\'s '
+                 'own thread reaches the step function. The linearised claim over all interleavings is NOT decided.',
+        'note': 'Not decided: the history-level claim (exactly once / queue order / quiescence under every interleaving); it is argued from the '
+                'token potential in DESIGN.md. Trusted: deque and Queue semantics; external callers do not drive next_rtc of a started object.',
+        'technique': SA + 'end-label and path-count rules on CFGs, guard analysis of the token protocol, thread-root reachability on the call graph',
+    },
+    'C05': {
+        'level': 'Decides necessary conditions of "every post returns": each blocking token put has room by construction (guard + equal '
+                 'capacities), the repair loops are monotone in what their guard compares, and no other loop or blocking call is reachable from an '
+                 'untimed post. Fair termination itself is a liveness property of schedules and is NOT decided.',
+        'note': 'Not decided: termination under fair schedules. Trusted: Queue.put blocks only when full; qsize/len are atomic reads.',
+        'technique': SA + 'loop/guard operator analysis (one-sided comparison rule), call-graph closure of the post path, constructor capacity agreement',
+    },
+    'C07': {
+        'level': 'Decides that every configuration of subscribe/publish - instrumented or not, thread running or not, other subscribers present or '
+                 'not - is a branch that reaches fabric.subscribe(own queue, ...) / fabric.publish(...): exactly-once path counts through the spy '
+                 'wrappers, both branches of the thread-running selector, payload-tuple writer/reader agreement with the meta arms of top(), and '
+                 'an identity-keyed "already subscribed" guard.',
+        'note': 'Not decided: arrival at the chart under all delivery schedules (fabric side: C06, placement: C09).',
+        'technique': SA + 'path counting through decorator wrappers, branch analysis, interprocedural key-dependence slice of the guard, namedtuple field agreement',
+    },
+    'C14': {
+        'level': 'Decides that a queued chart is a deque driven by the same operations: ends of post_fifo/post_lifo relative to the consumer end read '
+                 'from next_rtc, one pop <-> one dispatch of the popped value per step, complete_circuit loops exactly while non-empty, and '
+                 'dispatch unreachable from the post methods in the call graph.',
+        'note': 'Trusted: collections.deque semantics. Handlers re-entering dispatch directly (H4) are outside the quantifier.',
+        'technique': SA + 'end labels, path counting, loop-shape rule, call-graph reachability',
+    },
+    'C15': {
+        'level': 'Decides the deferral discipline for every interleaving of defer/recall/posts/steps: single writer end, single reader end (oldest), '
+                 're-post of exactly the removed element with post_fifo, None on empty, nobody else touches the buffer.',
+        'note': 'Trusted: deque semantics; post_fifo places at the back (C14).',
+        'technique': SA + 'end labels, path counting per branch, who-may-touch census, wrapper discipline',
+    },
+    'C16': {
+        'level': 'Decides capacity and non-blocking per path of the code, so for empty, partly filled and full queues alike: every deque has a named '
+                 'bound, LockingDeque adds the item at the right end on the overflow path too, every blocking token put has room, clear() pairs '
+                 'task_done with successful gets.',
+        'note': 'Trusted: bounded deque evicts at the opposite end; Queue.task_done raises when called more often than get succeeded.',
+        'technique': SA + 'constructor census, per-path end labels, guard analysis, exception-edge pairing of get/task_done',
+    },
+    'C18': {
+        'level': 'Decides for every chart and event sequence that instrumentation is behaviour-neutral in structure: each of the 17 decorator wrappers '
+                 'and each host override runs the wrapped/base function exactly once with unchanged arguments and returns its result, the wrappers\' '
+                 'own effects stay inside the instrumentation namespace (effect analysis), and REFLECTION is only sent to handlers known to be '
+                 'spy-wrapped.',
+        'note': 'Assumes H4 (handlers cannot reach wrapper locals). Behavioural equality of runs is not executed; it follows from the wrappers being '
+                'transparent.',
+        'technique': SA + 'exactly-once path counting on wrapper CFGs, argument/result forwarding dataflow, attribute-path effect sets, dominance of the instrumented test',
+    },
 }
 
 NOT_APPLICABLE = {}
